@@ -125,6 +125,9 @@ func ParseSettings(reader io.Reader) (*Settings, error) {
 			settings = NewSessionSettings()
 
 		case settingRegEx.MatchString(line):
+			if settings == nil {
+				return s, fmt.Errorf("error parsing line %v: setting outside of a section", lineNumber)
+			}
 			parts := settingRegEx.FindStringSubmatch(line)
 			settings.Set(parts[1], parts[2])
 
